@@ -15,7 +15,7 @@ from explore import expect, conc, Violation
 
 PROPERTY = 'C15'
 CICADA = os.path.join(hsupport.VERIF, 'build/bin/debug/cicada')
-BUDGET = {'quick': 420, 'thorough': 3000}
+BUDGET = {'quick': 900, 'thorough': 3000}
 BOUNDS = {'quick': dict(arg_len=1, max_args=2, tok_segs=3), 'thorough': dict(arg_len=2, max_args=3, tok_segs=4)}
 ASSUMPTIONS = [
     'scenario families are enumerated (positional parameters in commands / conditions / for lists, functions in both header spellings with names containing - and _, status chains, set -e and exit N at every position incl. nested blocks and function bodies, source chains of depth <= 3); the argument texts (<= arg_len characters each, 0..max_args arguments) and every exit status are solver variables',
